@@ -28,7 +28,7 @@ RATES = [3e9, 2.4e9, 1.7e8, 1e6, 48000.0, 1.5e9, 2999999987.0, 104729.0, 2.79396
 
 
 def required(tier):
-    b = {'kind:arith': 100, 'kind:record': 30, 'duration:exact-multiple': 50, 'duration:ulp-neighbour': 30, 'duration:random': 30, 'duration:just-below-boundary': 100, 'duration:many-blocks': 100, 'record:from_data-longer-than-input': 8,
+    b = {'kind:arith': 100, 'kind:record': 30, 'duration:exact-multiple': 50, 'duration:ulp-neighbour': 30, 'duration:random': 30, 'duration:just-below-boundary': 100, 'duration:many-blocks': 100, 'record:from_data-longer-than-input': 8, 'record:second-recording-same-source': 20,
          'record:obs_length-mode': 10, 'record:num_blocks-mode': 10, 'bits:4': 20, 'array': 20}
     return {'buckets': b, 'counters': {'durations_judged': 500, 'ledgered_requests': 100}, 'checks': 3000, 'nontrivial': 100}
 
@@ -246,6 +246,27 @@ def run_case(c, R):
         R.check(near(guppi.parse_value(h['SCANLEN']), n * tpb, 2), 'header-SCANLEN', got=h['SCANLEN'], want=float(n * tpb))
         R.check(guppi.parse_value(h['PKTIDX']) == bi * spb, 'header-PKTIDX', got=h['PKTIDX'], want=bi * spb)
         R.check(guppi.parse_value(h['PKTSTOP']) - guppi.parse_value(h['PKTSTART']) == n * spb, 'header-PKTSTOP', got=h['PKTSTOP'], want=n * spb)
+    # ---- a second recording from the same source: it draws, and advances the clock by, exactly its own samples again
+    if c['_idx'] % 16 == 15 and n >= 1:
+        R.bucket('record:second-recording-same-source')
+        t1 = float(src.t_start)
+        rec2 = work_raw.do_record(stg, cfg, stem + '_second', rvb=rvb, src=src)
+        n2 = cfg['nblocks']
+        sizes2 = [s_ for s_, _ in rec2['delivered']]
+        want2 = n2 * spb * P + M * P
+        R.check(sum(sizes2) == want2, 'antenna-samples-drawn:second-recording', got=sum(sizes2), want=want2)
+        adv2 = Fraction(float(src.t_start)) - Fraction(t1)
+        tol2 = (4 + len(sizes2)) * Fraction(np.spacing(max(abs(t1), abs(float(src.t_start)), 1e-300)))
+        R.check(abs(adv2 - Fraction(want2) / FS) <= tol2, 'antenna-clock-advance:second-recording', got=float(adv2),
+                want=float(Fraction(want2) / FS), periods=float(adv2 * FS))
+        try:
+            b2 = work_raw.read_blocks(rec2['files'])
+            R.check(len(b2) == n2, 'blocks-written:second-recording', got=len(b2), want=n2)
+        except guppi.GuppiError as e:
+            R.violate('unparseable-recording:' + e.key + ':second-recording', msg=str(e))
+        for f_ in rec2['files']:
+            if os.path.exists(f_):
+                os.remove(f_)
     # ---- a backend built from this recording, asked for MORE than the input holds: every reported length describes what was recorded
     if c['_idx'] % 16 == 7 and n >= 1 and cfg['nants'] == 1:
         R.bucket('record:from_data-longer-than-input')
